@@ -32,6 +32,8 @@ def scenarios(rng):
     sc.append(('large', [F.discover(M, 5, 1), F.qltlv(M, own, 4, 0x0e, 0), F.qltlv(M, own, 5, 0x0e, 542), F.qltlv(M, own, 6, 0x11, 0), F.qltlv(M, own, 7, 0x13, 0),
                          F.qltlv(M, own, 8, 0x12, 0), F.qltlv(M, own, 9, 0x0e, 0, tos=1)]))
     sc.append(('mixed', F.session(rng, own, n=15)))
+    # a long outage: hundreds of Emits while every transmit (or every allocation) is refused
+    sc.append(('emit_soak', [F.discover(M, 5, 1)] + [F.emit(M, own, (i % 65535) + 1, [(i & 1, 0, F.STATIONS[1], F.STATIONS[2]), (1, 0, F.STATIONS[2], F.STATIONS[3])]) for i in range(300)]))
     return sc
 
 
@@ -39,7 +41,7 @@ def wrap(rng, head_extra, fault_ops, frames, a):
     ops = [F.iface_line(0, mac=F.OWN, mtu=576, **a), F.iface_line(1, mac=F.OWN, mtu=576, **a),
            F.glob_line(icon='gen:900:1', fname='gen:40:2', hwid='4100420043')] + head_extra + fault_ops
     ops += ['rx 0 %s zero' % f for f in frames if len(f) // 2 <= 576]
-    ops += ['fault clear', 'set 0 getfail=0', 'glob icon=gen:900:1 fname=gen:40:2 hwid=4100420043 emptyrep=null', 'rx 0 %s zero' % F.reset(F.STATIONS[0]), 'note recovered']
+    ops += ['fault clear', 'set 0 getfail=0', 'glob icon=gen:900:1 fname=gen:40:2 hwid=4100420043 emptyrep=null failsize=0', 'rx 0 %s zero' % F.reset(F.STATIONS[0]), 'note recovered']
     M = F.STATIONS[1]
     cont = [F.discover(M, 1, 1), F.qltlv(M, F.OWN, 2, 0x0e, 0), F.probe('0a0000000009', F.OWN, '0b0000000009', F.OWN), F.query(M, F.OWN, 3),
             F.emit(M, F.OWN, 4, [(1, 0, F.STATIONS[2], F.STATIONS[3])])]
@@ -54,6 +56,11 @@ def cases(rng, tier, X):
     a = dict(buf0=0)
     for name, frames in scenarios(rng):
         kmax = 30 if name != 'query_many' else 60
+        if name == 'emit_soak':
+            out.append(('%s_sall' % name, wrap(rng, [], ['fault sendall'], frames, a)))
+            out.append(('%s_mall' % name, wrap(rng, [], ['fault mallocall'], frames, a)))
+            out.append(('%s_m2on' % name, wrap(rng, [], ['fault malloc=%s' % ','.join(str(x) for x in range(2, 30))], frames, a)))
+            continue
         for k in range(1, kmax + 1):
             out.append(('%s_m%d' % (name, k), wrap(rng, [], ['fault malloc=%d' % k], frames, a)))
         out.append(('%s_mall' % name, wrap(rng, [], ['fault mallocall'], frames, a)))
@@ -65,7 +72,7 @@ def cases(rng, tier, X):
         out.append(('%s_sall' % name, wrap(rng, [], ['fault sendall'], frames, a)))
         out.append(('%s_s1_2_3' % name, wrap(rng, [], ['fault send=1,2,3'], frames, a)))
         # the process-wide getters fail during the faulty phase (icon / friendly name unavailable, hardware id empty) and work again afterwards
-        for gf in ('icon=none', 'fname=none', 'icon=none fname=none hwid=-', 'icon=- fname=-', 'icon=- fname=- emptyrep=block'):     # the last: empty, handed over as zero-length blocks
+        for gf in ('icon=none', 'fname=none', 'icon=none fname=none hwid=-', 'icon=- fname=-', 'icon=- fname=- emptyrep=block', 'icon=none fname=none failsize=40', 'icon=none failsize=3000'):     # the last: empty, handed over as zero-length blocks
             out.append(('%s_glob_%s' % (name, gf.replace(' ', '_').replace('=', '')), wrap(rng, ['glob ' + gf], [], frames, a)))
         masks = [1 << b for b in range(9)] + [rng.randrange(1, 512) for _ in range(6 if tier == 'quick' else 0)]
         if tier == 'thorough':
